@@ -238,6 +238,23 @@ CHECKS.update({
     },
 })
 
+CHECKS.update({
+    'C02': {
+        'level': 'model_checking', 'design_ref': 'DESIGN.md section 2 (C02)',
+        'technique': 'explicit-state exploration of the scheduler with an obligation monitor in the state; replay-based exploration of real executions against a from-scratch reference evaluation',
+        'text': 'Abstract tier: state graph of the real scheduler/farm where every success reply reports every subset of the '
+        'algorithm's values as new; a monitor (part of the canonical state) records for each report which algorithms owe a '
+        'release for which target (value-level declarations incl. feedback, from the engine description); a release '
+        'without cause is a minimality violation, a quiescent state with an undischarged obligation a completeness '
+        'violation. Store tier: every released unit is really executed (task message -> pl.worker.Context.run -> Task.do '
+        '-> Dataset.load/update -> shelve over the loopback wire) in every completion order and for every choice of which '
+        'root values change; at every quiescent state a fresh load of every (target, algorithm, value) equals the '
+        'from-scratch evaluation in dependency order.',
+        'note': _SCHED_NOTE + '; store tier: a unit executes atomically when its reply is delivered; task-kind algorithms; '
+        'root contents carry (algorithm, value, target, epoch); resource-metric values are excluded from the state.',
+    },
+})
+
 _PENDING = 'check not built yet in this session (planned in DESIGN.md); will move to checks when it exists'
 NOT_APPLICABLE = {
     pid: _PENDING
